@@ -92,6 +92,7 @@ func c05Prop(c c05Case) ev.Outcome {
 	}
 	o.NonTrivial = c.N == 0 || c.N >= N || dupStraddle || (c.N < N && tableHasDupRows(c.Table))
 	o.Classes = append(o.Classes, "placement_"+c.Placement, fmt.Sprintf("retracting_%v", c.Retract), "order_"+c.Order)
+	o.Classes = append(o.Classes, timeClasses([]gen.TableSpec{c.Table}, spec)...)
 	if c.N == 0 {
 		o.Classes = append(o.Classes, "limit_0")
 	}
@@ -112,7 +113,7 @@ func c05Prop(c c05Case) ev.Outcome {
 			var err error
 			switch mode {
 			case "json":
-				got, err = ParseJSONOut(r.Stdout)
+				got, err = ParseJSONOutT(r.Stdout)
 			case "csv":
 				got, err = ParseCSVOut(r.Stdout, kindOfCols(res))
 			case "stream_native":
@@ -208,12 +209,12 @@ func c05LiveProp(c c05LiveCase) ev.Outcome {
 
 func TestC05(t *testing.T) {
 	r := ev.New("C05", "exploration",
-		"row multisets with duplicates (1-2 columns of small ints / short ASCII words, NULLs, 0..12 rows) x n in 0..rows+2 x ORDER BY none/asc/desc x placement top-level / subquery in FROM / WITH x plain or retracting input (GROUP BY ... TRIGGER COUNTING 1 underneath) x "+
+		"row multisets with duplicates (1-2 columns of small ints / short ASCII words / - a fifth of the CSV tables - times: one instant in several zone spellings, which tie under ORDER BY; NULLs, 0..12 rows) x n in 0..rows+2 x ORDER BY none/asc/desc x placement top-level / subquery in FROM / WITH x plain or retracting input (GROUP BY ... TRIGGER COUNTING 1 underneath) x "+
 			"all five output modes on every case; oracle: exactly min(n,N) rows, sub-multiset of the full result, sorted key sequence equal to the first n keys counting duplicates individually. "+
 			"non-trivial: n=0, n>=N, duplicates straddling the cut, or n<N with duplicate rows. distinct=(query, file, modes). live_table_redraw: 400k-700k row inputs so that live_table redraws before the end (non-trivial when it did); the final table must hold exactly the limited, ordered rows",
-		"values are ints, NULL and quote/separator-free ASCII words so the table and stream_native renderings parse unambiguously; tables are decoded from the last table printed")
+		"values are ints, NULL, quote/separator-free ASCII words and times (printed as bare RFC3339 text, compared as instants) so the table and stream_native renderings parse unambiguously; tables are decoded from the last table printed")
 	ev.Check(t, r, "limit_order_modes", ev.N(1600, 30000), func(t *rapid.T) c05Case {
-		tbl := gen.Table(t, gen.TableOpts{Name: "tab", MinRows: 0, MaxRows: 12, MaxCols: 2, NoLong: true, Kinds: []string{"int", "str"}, Format: rapid.SampledFrom([]string{"csv", "csv", "json"}).Draw(t, "fmt")})
+		tbl := gen.Table(t, gen.TableOpts{Name: "tab", MinRows: 0, MaxRows: 12, MaxCols: 2, NoLong: true, Kinds: []string{"int", "str"}, Time: true, Format: rapid.SampledFrom([]string{"csv", "csv", "json"}).Draw(t, "fmt")})
 		if tbl.Format == "json" {
 			// JSON has no ints: use floats with integral values instead of strings only
 			tbl = gen.Table(t, gen.TableOpts{Name: "tab", MinRows: 1, MaxRows: 12, MaxCols: 2, NoLong: true, Kinds: []string{"float", "str"}, Format: "json"})
